@@ -424,3 +424,179 @@ theorem tabDoc_wf (ctlId : Str) (bgId cgId : Option Str) (left : Bool) (selected
     · exact wfNode_elp _ _ _ _ _ (by decide) no_css rfl rfl (wfNodes_one _ (td _ hc rfl) rfl)
 
 end Pg.C20
+
+namespace Pg.C20
+
+/-! ### vocabulary of the controls -/
+
+/-- Element names the controls emit. -/
+def ctlTags : List Str := [c!"span", c!"a", c!"div", c!"button", c!"table", c!"tr", c!"td"]
+/-- Attribute names the controls emit. -/
+def ctlAttrs : List Str := [c!"class", c!"style", c!"id", c!"href", c!"target", c!"onclick"]
+
+mutual
+  /-- Every element / attribute name of the document is in the controls' vocabulary. -/
+  def ctlVocab : HNode → Bool
+    | .text _ => true
+    | .elem tag attrs cs => ctlTags.contains tag && attrs.all (fun a => ctlAttrs.contains a.name) && ctlVocabAll cs
+  def ctlVocabAll : List HNode → Bool
+    | [] => true
+    | n :: ns => ctlVocab n && ctlVocabAll ns
+end
+
+mutual
+  theorem ctlVocab_tags (n : HNode) (h : ctlVocab n = true) : ∀ t ∈ tagsOf n, t ∈ ctlTags := by
+    cases n with
+    | text s => intro t ht; simp [tagsOf] at ht
+    | elem tag attrs cs =>
+      simp only [ctlVocab, Bool.and_eq_true, List.contains_iff_mem] at h
+      intro t ht
+      simp only [tagsOf, List.mem_cons] at ht
+      rcases ht with rfl | ht
+      · exact h.1.1
+      · exact ctlVocabAll_tags cs h.2 t ht
+  theorem ctlVocabAll_tags (ns : List HNode) (h : ctlVocabAll ns = true) :
+      ∀ t ∈ tagsOfAll ns, t ∈ ctlTags := by
+    cases ns with
+    | nil => intro t ht; simp [tagsOfAll] at ht
+    | cons n ns =>
+      simp only [ctlVocabAll, Bool.and_eq_true] at h
+      intro t ht
+      simp only [tagsOfAll, List.mem_append] at ht
+      rcases ht with ht | ht
+      · exact ctlVocab_tags n h.1 t ht
+      · exact ctlVocabAll_tags ns h.2 t ht
+end
+
+mutual
+  theorem ctlVocab_attrs (n : HNode) (h : ctlVocab n = true) : ∀ a ∈ attrNamesOf n, a ∈ ctlAttrs := by
+    cases n with
+    | text s => intro t ht; simp [attrNamesOf] at ht
+    | elem tag attrs cs =>
+      simp only [ctlVocab, Bool.and_eq_true, List.all_eq_true, List.contains_iff_mem] at h
+      intro t ht
+      simp only [attrNamesOf, List.mem_append, List.mem_map] at ht
+      rcases ht with ⟨a, ha, rfl⟩ | ht
+      · exact h.1.2 a ha
+      · exact ctlVocabAll_attrs cs h.2 t ht
+  theorem ctlVocabAll_attrs (ns : List HNode) (h : ctlVocabAll ns = true) :
+      ∀ a ∈ attrNamesOfAll ns, a ∈ ctlAttrs := by
+    cases ns with
+    | nil => intro t ht; simp [attrNamesOfAll] at ht
+    | cons n ns =>
+      simp only [ctlVocabAll, Bool.and_eq_true] at h
+      intro t ht
+      simp only [attrNamesOfAll, List.mem_append] at ht
+      rcases ht with ht | ht
+      · exact ctlVocab_attrs n h.1 t ht
+      · exact ctlVocabAll_attrs ns h.2 t ht
+end
+
+/-- Property names (after `_` → `-`) are in the vocabulary. -/
+def propNamesOk : List (Str × Option Str) → Bool
+  | [] => true
+  | (k, _) :: r => ctlAttrs.contains (dashed k) && propNamesOk r
+
+theorem propAttrs_vocab (props : List (Str × Option Str)) (h : propNamesOk props = true) :
+    (propAttrs props).all (fun a => ctlAttrs.contains a.name) = true := by
+  induction props with
+  | nil => rfl
+  | cons p r ih =>
+    obtain ⟨k, v⟩ := p
+    simp only [propNamesOk, Bool.and_eq_true] at h
+    cases v with
+    | none => simpa [propAttrs] using ih h.2
+    | some x => simp only [propAttrs, List.all_cons, h.1, ih h.2, Bool.and_self]
+
+theorem ctlVocab_elp (tag : Str) (cls : List Str) (styles props : List (Str × Option Str))
+    (children : List HNode) (ht : ctlTags.contains tag = true) (hp : propNamesOk props = true)
+    (hch : ctlVocabAll children = true) : ctlVocab (elp tag cls styles props children) = true := by
+  simp only [elp, ctlVocab, ht, hch, Bool.and_true, Bool.true_and]
+  simp only [elementAttrs, dedup, joinSp, List.isEmpty_nil, if_true, List.nil_append, List.all_append,
+    Bool.and_eq_true]
+  refine ⟨⟨?_, ?_⟩, propAttrs_vocab props hp⟩
+  · unfold optAttr; split
+    · rfl
+    · simp only [List.all_cons, List.all_nil, Bool.and_true]; decide
+  · unfold optAttr; split
+    · rfl
+    · simp only [List.all_cons, List.all_nil, Bool.and_true]; decide
+
+theorem ctlVocabAll_txt (s : Str) : ctlVocabAll (txt s) = true := by
+  unfold txt; split <;> rfl
+
+theorem tooltipCtlDoc_vocab (content : Str) (id : Option Str) (css : List Str)
+    (styles : List (Str × Option Str)) : ctlVocab (tooltipCtlDoc content id css styles) = true :=
+  ctlVocab_elp _ _ _ _ _ (by decide) rfl (ctlVocabAll_txt _)
+
+theorem labelTextDoc_vocab (l : LabelM) : ctlVocab (labelTextDoc l) = true := by
+  unfold labelTextDoc
+  refine ctlVocab_elp _ _ _ _ _ ?_ rfl (ctlVocabAll_txt _)
+  split <;> decide
+
+theorem labelDoc_vocab (l : LabelM) : ctlVocab (labelDoc l) = true := by
+  unfold labelDoc
+  cases l.tooltip with
+  | none => exact labelTextDoc_vocab l
+  | some t =>
+    simp only
+    refine ctlVocab_elp _ _ _ _ _ (by decide) rfl ?_
+    simp [ctlVocabAll, labelTextDoc_vocab, tooltipCtlDoc_vocab]
+
+theorem subDocs_vocab (subs : List SubM) : ctlVocabAll (subDocs subs) = true := by
+  induction subs with
+  | nil => rfl
+  | cons s ss ih =>
+    simp only [subDocs, ctlVocabAll, ih, Bool.and_true]
+    exact ctlVocab_elp _ _ _ _ _ (by decide) rfl rfl
+
+theorem progressBarDoc_vocab (subs : List SubM) (label : LabelM) :
+    ctlVocab (progressBarDoc subs label) = true := by
+  unfold progressBarDoc
+  refine ctlVocab_elp _ _ _ _ _ (by decide) rfl ?_
+  simp only [ctlVocabAll, labelDoc_vocab, Bool.and_true]
+  exact ctlVocab_elp _ _ _ _ _ (by decide) rfl (subDocs_vocab subs)
+
+theorem tabButtonDocs_vocab (ctlId : Str) (selected i : Nat) (ws : List TabW) :
+    ctlVocabAll (tabButtonDocs ctlId selected i ws) = true := by
+  induction ws generalizing i with
+  | nil => rfl
+  | cons w ws ih =>
+    simp only [tabButtonDocs, ctlVocabAll, ih, Bool.and_true]
+    refine ctlVocab_elp _ _ _ _ _ (by decide) rfl ?_
+    simp [ctlVocabAll, labelDoc_vocab]
+
+theorem tabContentDocs_vocab (selected i : Nat) (ws : List TabW)
+    (h : ws.all (fun w => ctlVocabAll w.nodes) = true) :
+    ctlVocabAll (tabContentDocs selected i ws) = true := by
+  induction ws generalizing i with
+  | nil => rfl
+  | cons w ws ih =>
+    simp only [List.all_cons, Bool.and_eq_true] at h
+    simp only [tabContentDocs, ctlVocabAll, ih (i + 1) h.2, Bool.and_true]
+    exact ctlVocab_elp _ _ _ _ _ (by decide) rfl h.1
+
+theorem tabDoc_vocab (ctlId : Str) (bgId cgId : Option Str) (left : Bool) (selected : Nat) (css : List Str)
+    (styles : List (Str × Option Str)) (ws : List TabW)
+    (h : ws.all (fun w => ctlVocabAll w.nodes) = true) :
+    ctlVocab (tabDoc ctlId bgId cgId left selected css styles ws) = true := by
+  unfold tabDoc
+  have hb : ∀ pos : Str, ctlVocab (elp c!"div" (c!"tab-button-group" :: pos :: css) []
+      [(c!"id", bgId)] (tabButtonDocs ctlId selected 0 ws)) = true :=
+    fun pos => ctlVocab_elp _ _ _ _ _ (by decide) rfl (tabButtonDocs_vocab ctlId selected 0 ws)
+  have hc : ∀ pos : Str, ctlVocab (elp c!"div" (c!"tab-content-group" :: pos :: css) []
+      [(c!"id", cgId)] (tabContentDocs selected 0 ws)) = true :=
+    fun pos => ctlVocab_elp _ _ _ _ _ (by decide) rfl (tabContentDocs_vocab selected 0 ws h)
+  have td : ∀ n, ctlVocab n = true → ctlVocab (elp c!"td" [] [] [] [n]) = true :=
+    fun n hn => ctlVocab_elp _ _ _ _ _ (by decide) rfl (by simp [ctlVocabAll, hn])
+  refine ctlVocab_elp _ _ _ _ _ (by decide) rfl ?_
+  cases left with
+  | true =>
+    simp only [if_true, ctlVocabAll, Bool.and_true]
+    exact ctlVocab_elp _ _ _ _ _ (by decide) rfl (by simp [ctlVocabAll, td _ (hb _), td _ (hc _)])
+  | false =>
+    simp only [Bool.false_eq_true, if_false, ctlVocabAll, Bool.and_true, Bool.and_eq_true]
+    exact ⟨ctlVocab_elp _ _ _ _ _ (by decide) rfl (by simp [ctlVocabAll, td _ (hb _)]),
+           ctlVocab_elp _ _ _ _ _ (by decide) rfl (by simp [ctlVocabAll, td _ (hc _)])⟩
+
+end Pg.C20
